@@ -29,6 +29,7 @@ type Ctx struct {
 	setterMemo       map[*ssa.Function]*setterEval
 	kitErrMemo       *kitErrAnalysis
 	depRaisersMemo   map[*ssa.Function]string
+	pureMemo         map[*types.Func]int
 	nsOnlyFields     bool // ruleCollectBeforeUse: only the per-resource sets (map fields), not the cross-block name spaces
 	dispatch         map[string]*types.Func
 	pasteR           *pasteRoles
